@@ -44,7 +44,10 @@ use serde_json::{Value, json};
 use starknet_types_core::felt::Felt as Felt252;
 use vcommon::{Rng, catch, last_panic_location, quiet_panics, stark_prime};
 
-const CORELIB: &str = "/repo/corelib/src";
+/// corelib of the tree under test ($VERIF_REPO, default /repo)
+fn corelib() -> String {
+    format!("{}/corelib/src", std::env::var("VERIF_REPO").unwrap_or_else(|_| "/repo".into()))
+}
 
 fn fnv(s: &str) -> u64 {
     let mut h: u64 = 0xcbf29ce484222325;
@@ -802,7 +805,7 @@ fn worker_main(batch_file: &str, result_file: &str) {
     b.with_default_plugin_suite(cairo_lang_test_plugin::test_assert_suite());
     b.with_default_plugin_suite(cairo_lang_starknet::starknet_plugin_suite());
     let mut db = b.build().expect("RootDatabase");
-    init_dev_corelib(&mut db, PathBuf::from(CORELIB));
+    init_dev_corelib(&mut db, PathBuf::from(corelib()));
     for f in &files {
         stats.sources += 1;
         let name = Path::new(f).file_stem().unwrap().to_string_lossy().to_string();
@@ -853,6 +856,16 @@ fn worker_main(batch_file: &str, result_file: &str) {
             }
         };
         stats.compiled += 1;
+        // H14_SIERRA_DUMP=<dir>: the freshly compiled program is written there as text (extra corpus of the
+        // static legs of C15/C17/C04); H14_COMPILE_ONLY=1: nothing is run
+        if let Ok(dir) = std::env::var("H14_SIERRA_DUMP") {
+            if let Ok(t) = catch(AssertUnwindSafe(|| program.to_string())) {
+                let _ = std::fs::write(format!("{dir}/cc_{name}.sierra"), t);
+            }
+        }
+        if std::env::var("H14_COMPILE_ONLY").is_ok() {
+            continue;
+        }
         run_program(&name, &format!("{name}::"), &program, false, thorough, seed, &mut stats, &mut failures);
         let out_dir = Path::new(result_file).parent().map(|p| p.to_string_lossy().to_string()).unwrap_or_else(|| ".".into());
         run_mutants(&name, &program, thorough, seed, &out_dir, &mut stats, &mut failures);
